@@ -230,7 +230,7 @@ def gen_cfg(r):
     return dict(ntests=ntests, sel=sel, unsel=unsel, total=total, nscripts=r.choice([0, 0, 0, 1, 2, 3]))
 
 
-def gen_wf(r, maxlen=80, cancel_bias=0.5):
+def gen_wf(r, maxlen=80, cancel_bias=0.5, max_running=None):
     """Simulates the executor protocol: every unit follows run_test_instance / run_setup_scripts
     against *predicted* handshake answers (a three-line predictor of `cancel_state.is_some()`; it is
     only a generation bias — whether a history really is well-formed is decided afterwards by
@@ -244,7 +244,7 @@ def gen_wf(r, maxlen=80, cancel_bias=0.5):
     # per-test plan: how many attempts fail before a pass (or all fail)
     plan = {t: [r.random() < 0.45 for _ in range(cfg["total"][t])] for t in range(cfg["ntests"])}
     env_rate = r.choice([0.0, 0.03, 0.08]) if r.random() < cancel_bias else 0.0
-    max_running = r.choice([1, 2, 3, 8])
+    max_running = max_running or r.choice([1, 2, 3, 8])
     while len(events) < maxlen:
         acts = []
         if script_i < cfg["nscripts"]:
